@@ -126,6 +126,21 @@ XNode(nd, cx) ==
     ELSE LET k == XKids(nd.kids, 1, cx) IN
          R(<<StartT(nd.tag, nd.atts)>> \o k.t \o (IF nd.tag \in VoidTags THEN <<>> ELSE <<EndT(nd.tag)>>), k.g)
 
+\* the globals the caller hands over: the context entries plus `macros` = the template's macro table
+RECURSIVE EntsToFn(_, _)
+EntsToFn(ents, i) == IF i > Len(ents) THEN EmptyF ELSE Put(EntsToFn(ents, i + 1), ents[i].s, ents[i].q[1])
+MacroNames(nodes) == LET ml == MacroList(nodes, 1) IN [i \in DOMAIN ml |-> ml[i].name]
+GlobalsOf(ents, nodes) ==
+    Put(EntsToFn(ents, 1), "macros", MapV([i \in DOMAIN MacroNames(nodes) |-> Ent(MacroNames(nodes)[i], MacroV(MacroNames(nodes)[i]))]))
+\* names bound by `global` defines anywhere in the template
+RECURSIVE GlobalDefines(_, _)
+GlobalDefines(nodes, i) ==
+    IF i > Len(nodes) THEN {}
+    ELSE LET nd == nodes[i] IN
+         (IF nd.k = "el" /\ HasCmd(nd, "define")
+          THEN {CmdOf(nd, "define").items[j].name : j \in {j \in DOMAIN CmdOf(nd, "define").items : CmdOf(nd, "define").items[j].g}}
+          ELSE {}) \cup (IF nd.k = "el" THEN GlobalDefines(nd.kids, 1) ELSE {}) \cup GlobalDefines(nodes, i + 1)
+
 \* expanding a template (a sequence of top-level nodes) with globals g0
 Expand(nodes, g0, py) ==
     XKids(nodes, 1, [g |-> g0, l |-> EmptyF, rm |-> EmptyF, at |-> <<>>, py |-> py,
